@@ -205,6 +205,15 @@ def judge(job, inputs, verbose=False, prebuilt=None):
     ns = dict(args)
     ns['result'] = result
     ns['out'] = result
+    known = False
+    for reg_ in job.get('known_regions', []):
+        try:
+            if eval_spec(reg_, dict(pre_ns), pre_ns, glob):
+                known = True
+        except Exception:
+            pass
+    if known:
+        return 'known', {'inputs': inputs if not isinstance(inputs, dict) or prebuilt is None else inputs}
     detail = {'inputs': inputs, 'result': repr(result)[:400], 'exception': repr(exc) if exc else None}
     if exc is not None:
         allowed = False
@@ -313,6 +322,9 @@ def search(job, budget_s=20.0, seed=0, max_cases=20000):
                 continue
             if v == 'skip':
                 continue
+            if v == 'known':
+                job['_known_hits'] = job.get('_known_hits', 0) + 1
+                continue
             tried += 1
             if v == 'violation':
                 return d['inputs'], d, tried
@@ -349,6 +361,10 @@ def search(job, budget_s=20.0, seed=0, max_cases=20000):
             skipped += 1
             if skipped > 50 * max_cases:
                 break
+            continue
+        if v == 'known':
+            tried -= 1
+            job['_known_hits'] = job.get('_known_hits', 0) + 1
             continue
         if v == 'violation':
             return inp, d, tried
@@ -395,7 +411,7 @@ if __name__ == '__main__':
         for j in job['jobs']:
             try:
                 inp, d, tried = search(j, job.get('budget_s', 2.0), int(os.environ.get('VERIF_SEED', '0') or 0), job.get('max_cases', 3000))
-                out.append({'name': j['name'], 'input': inp, 'detail': d, 'tried': tried})
+                out.append({'name': j['name'], 'input': inp, 'detail': d, 'tried': tried, 'known_hits': j.get('_known_hits', 0)})
             except Exception as e:
                 out.append({'name': j['name'], 'error': repr(e), 'tried': 0})
         print(json.dumps(out, default=str))
